@@ -145,4 +145,447 @@ mut(
 """,
 )
 
+# ------------------------------------------------------------------------------ C18
+mut(
+    "c18-from-import-in-parser-cycle",
+    "C18",
+    "C18.import.single",
+    "cdd/shared/docstring_parsers.py",
+    "import cdd.shared.parse.utils.parser_utils\n",
+    "import cdd.shared.parse.utils.parser_utils\nfrom cdd.shared.parse.utils.parser_utils import merge_present_params\n",
+    mention=["merge_present_params"],
+)
+mut(
+    "c18-from-import-class-parser-in-function-parse",
+    "C18",
+    "C18.import",
+    "cdd/function/parse.py",
+    "import cdd.docstring.parse\n",
+    "import cdd.docstring.parse\nfrom cdd.class_.parse import class_ as _class_parser\n",
+)
+mut(
+    "c18-module-level-dotted-use-in-cycle",
+    "C18",
+    "C18.import",
+    "cdd/shared/parse/utils/parser_utils.py",
+    'lstrip_typings = partial(lstrip_namespace, namespaces=("typings.", "_extensions."))\n',
+    'lstrip_typings = partial(lstrip_namespace, namespaces=("typings.", "_extensions."))\n_default_parser = cdd.class_.parse.class_\n',
+)
+mut(
+    "c18-reintroduce-openapi-import",
+    "C18",
+    "C18.import.single",
+    "cdd/sqlalchemy/utils/shared_utils.py",
+    "import cdd.shared.ast_utils\n",
+    "import cdd.compound.openapi.utils.emit_utils\nimport cdd.shared.ast_utils\n",
+)
+mut(
+    "c18-undeclared-third-party",
+    "C18",
+    "C18.ext",
+    "cdd/shared/pkg_utils.py",
+    "from cdd.shared.pure_utils import PY_GTE_3_12\n",
+    "import requests\n\nfrom cdd.shared.pure_utils import PY_GTE_3_12\n",
+    mention=["requests"],
+)
+# ------------------------------------------------------------------------------ C20
+EXU = "cdd/compound/exmod_utils.py"
+EXM = "cdd/compound/exmod.py"
+mut(
+    "c20-emit-symbol-drops-dry-run-arm",
+    "C20",
+    "C20.dryrun",
+    EXU,
+    """    if dry_run:
+        print(
+            "write\\t{emit_filename!r}".format(emit_filename=emit_filename),
+            file=EXMOD_OUT_STREAM,
+        )
+    else:
+        cdd.shared.emit.file.file(gen_node, filename=emit_filename, mode="wt")
+""",
+    """    cdd.shared.emit.file.file(gen_node, filename=emit_filename, mode="wt")
+""",
+    mention=["_emit_symbol"],
+)
+mut(
+    "c20-makedirs-before-test",
+    "C20",
+    "C20.dryrun",
+    EXU,
+    """    if not path.isdir(mod_path):
+        if dry_run:
+""",
+    """    if not path.isdir(mod_path):
+        makedirs(path.dirname(mod_path), exist_ok=True)
+        if dry_run:
+""",
+    mention=["emit_file_on_hierarchy"],
+)
+mut(
+    "c20-partial-dry-run-false",
+    "C20",
+    "C20.dryrun",
+    EXU,
+    """        no_word_wrap=no_word_wrap,
+        dry_run=dry_run,
+    )
+
+    # Might need""",
+    """        no_word_wrap=no_word_wrap,
+        dry_run=False,
+    )
+
+    # Might need""",
+)
+mut(
+    "c20-sqlalchemy-mod-unguarded-again",
+    "C20",
+    "C20.dryrun",
+    EXM,
+    "    if make_sqlalchemy_mod and not dry_run:\n",
+    "    if make_sqlalchemy_mod:\n",
+    mention=["_add_imports_to_sqlalchemy_create_all"],
+)
+mut(
+    "c20-gate-after-emit",
+    "C20",
+    "C20.gate",
+    EXM,
+    """    if not proceed:
+        return
+""",
+    """    if not proceed and dry_run:
+        return
+""",
+)
+mut(
+    "c20-find-packages-no-exclude",
+    "C20",
+    "C20.gate",
+    EXM,
+    "        exclude=blacklist if blacklist else iter(()),\n",
+    "        exclude=iter(()),\n",
+)
+mut(
+    "c20-init-in-parent-again",
+    "C20",
+    "C20.prov",
+    EXU,
+    """    init_filepath: str = path.join(
+        mod_path if output_dir_is_module else path.dirname(mod_path), INIT_FILENAME
+    )
+""",
+    """    init_filepath: str = path.join(path.dirname(mod_path), INIT_FILENAME)
+""",
+    mention=["init_filepath"],
+)
+mut(
+    "c20-write-next-to-source",
+    "C20",
+    "C20.prov",
+    EXM,
+    """        makedirs(path.dirname(init_filepath), exist_ok=True)
+""",
+    """        makedirs(path.dirname(init_filepath), exist_ok=True)
+        open(path.join(module_root_dir, ".exmod_done"), "a").close()
+""",
+)
+# ------------------------------------------------------------------------------ C11
+mut(
+    "c11-skip-loop-stationary-again",
+    "C11",
+    "C11.progress",
+    "cdd/docstring/emit.py",
+    """            prev_nl = next_nl + 1
+            next_nl = candidate_doc_str.find("\\n", prev_nl)
+""",
+    """            next_nl = candidate_doc_str.find("\\n", prev_nl)
+""",
+    mention=["next_nl"],
+)
+mut(
+    "c11-increment-under-condition",
+    "C11",
+    "C11.progress",
+    "cdd/docstring/utils/parse_utils.py",
+    """                i += 1
+        i += 1
+    if not union[-1]:""",
+    """                i += 1
+        if not is_space or union:
+            i += 1
+    if not union[-1]:""",
+)
+mut(
+    "c11-pop-replaced-by-index",
+    "C11",
+    "C11.progress",
+    "cdd/shared/ast_utils.py",
+    "        query = current_search.pop(0)\n        if (\n",
+    "        query = current_search[0]\n        if (\n",
+)
+mut(
+    "c11-line-end-not-advanced",
+    "C11",
+    "C11.progress",
+    "cdd/shared/docstring_utils.py",
+    """            line_start = line_end
+            line_end += 1
+""",
+    """            line_start = line_end
+            if line:
+                line_end += 1
+""",
+)
+mut(
+    "c11-unbounded-cycle",
+    "C11",
+    "C11.iter",
+    "cdd/function/parse.py",
+    "list(islice(cycle((None,)), diff))",
+    "list(cycle((None,)))[:diff]",
+)
+# ------------------------------------------------------------------------------ C10
+AU = "cdd/shared/ast_utils.py"
+mut(
+    "c10-merge-params-set-again",
+    "C10",
+    "C10.setorder",
+    "cdd/shared/parse/utils/parser_utils.py",
+    """    for name in other_params:
+        if name not in target_params:
+            target_params[name] = other_params[name]
+""",
+    """    for name in other_params.keys() - target_params.keys():
+        target_params[name] = other_params[name]
+""",
+    mention=["merge_params"],
+)
+mut(
+    "c10-all-list-unsorted",
+    "C10",
+    "C10.setorder",
+    AU,
+    "map(set_value, (sorted(frozenset(elts)) if unique_sort else elts))",
+    "map(set_value, (frozenset(elts) if unique_sort else elts))",
+)
+mut(
+    "c10-import-names-unsorted",
+    "C10",
+    "C10.setorder",
+    AU,
+    "                        sorted(frozenset(map(itemgetter(0), mod_names[1]))),\n",
+    "                        frozenset(map(itemgetter(0), mod_names[1])),\n",
+)
+mut(
+    "c10-mutable-default-written",
+    "C10",
+    "C10.mutdefault",
+    EXU,
+    """        res.update(
+            dict(
+                map(
+                    lambda node: (""",
+    """        _result.update(res)
+        res.update(
+            dict(
+                map(
+                    lambda node: (""",
+)
+mut(
+    "c10-module-cache",
+    "C10",
+    "C10.modstate",
+    "cdd/shared/pure_utils.py",
+    """    counter: count = count()
+    deque(zip(iterable, counter), maxlen=0)
+    return next(counter)
+""",
+    """    counter: count = count()
+    deque(zip(iterable, counter), maxlen=0)
+    simple_types["_last_count"] = next(counter)
+    return simple_types["_last_count"]
+""",
+)
+mut(
+    "c10-crossmod-different-value",
+    "C10",
+    "C10.crossmod",
+    "cdd/compound/openapi/utils/emit_utils.py",
+    '        "int64": "BigInteger",\n',
+    '        "int64": "Integer",\n',
+)
+mut(
+    "c10-random-suffix",
+    "C10",
+    "C10.nondet",
+    "cdd/shared/pure_utils.py",
+    """    if not s:
+        return "_"
+    elif iskeyword(s):""",
+    """    if not s:
+        import random
+
+        return "_{}".format(random.randint(0, 9))
+    elif iskeyword(s):""",
+)
+# ------------------------------------------------------------------------------ C17
+PU = "cdd/docstring/utils/parse_utils.py"
+mut(
+    "c17-word-chars-paren",
+    "C17",
+    "C17.charset",
+    PU,
+    """word_chars: str = "{0}{1}`'\\"/|".format(string.digits, string.ascii_letters)""",
+    """word_chars: str = "{0}{1}`'\\"/|()".format(string.digits, string.ascii_letters)""",
+)
+mut(
+    "c17-word-chars-underscore",
+    "C17",
+    "C17.charset",
+    PU,
+    """word_chars: str = "{0}{1}`'\\"/|".format(string.digits, string.ascii_letters)""",
+    """word_chars: str = "{0}{1}_`'\\"/|".format(string.digits, string.ascii_letters)""",
+)
+mut(
+    "c17-eval-doc-directly",
+    "C17",
+    "C17.exec",
+    "cdd/shared/docstring_parsers.py",
+    """        if typ is not None:
+            try:
+                eval(typ, globals(), locals())""",
+    """        if typ is None and _param["doc"].startswith("typing."):
+            typ = _param["doc"].partition(" ")[0]
+        if typ is not None:
+            try:
+                eval(typ, globals(), locals())""",
+)
+mut(
+    "c17-literal-eval-to-eval",
+    "C17",
+    "C17.exec",
+    "cdd/shared/defaults_utils.py",
+    "literal_eval(",
+    "eval(",
+)
+mut(
+    "c17-input-eval-guard-dropped",
+    "C17",
+    "C17.exec",
+    "cdd/compound/sync_properties.py",
+    "    if input_eval:\n        if input_param.count",
+    "    if input_eval or output_param_wrap is None:\n        if input_param.count",
+)
+mut(
+    "c17-doctrans-backup-file",
+    "C17",
+    "C17.write",
+    "cdd/compound/doctrans.py",
+    """        with open(filename, "wt") as f:
+""",
+    """        with open("{}.bak".format(filename), "wt") as bak:
+            bak.write(original_source)
+        with open(filename, "wt") as f:
+""",
+)
+mut(
+    "c17-parser-imports-named-module",
+    "C17",
+    "C17.exec",
+    "cdd/class_/utils/parse_utils.py",
+    '__all__ = ["get_source"]',
+    'def resolve_base(name):\n    """resolve"""\n    from importlib import import_module as _imp\n\n    return _imp(name.rpartition(".")[0])\n\n\n__all__ = ["get_source"]',
+)
+mut(
+    "c17-phase0-unfiltered-append",
+    "C17",
+    "C17.charset",
+    PU,
+    """        elif ch in frozenset((".", ";", ",")) or ch.isspace():
+            words[-1] = "".join(words[-1])""",
+    """        elif ch == "_" and words[-1]:
+            words[-1].append(ch)
+        elif ch in frozenset((".", ";", ",")) or ch.isspace():
+            words[-1] = "".join(words[-1])""",
+)
+# ------------------------------------------------------------------------------ C19
+GU = "cdd/compound/gen_utils.py"
+mut(
+    "c19-guard-weakened",
+    "C19",
+    "C19.guard",
+    "cdd/__main__.py",
+    "        if path.isfile(args.output_filename) and args.phase == 0:\n",
+    "        if path.isfile(args.output_filename) and args.phase == 0 and not args.emit_call:\n",
+)
+mut(
+    "c19-gen-file-truncates",
+    "C19",
+    "C19.append",
+    GU,
+    '    with open(output_filename, "a") as f:\n',
+    '    with open(output_filename, "wt") as f:\n',
+)
+mut(
+    "c19-all-gets-raw-name",
+    "C19",
+    "C19.names",
+    GU,
+    "        or global__all__.append(name_tpl.format(name=name))\n",
+    "        or global__all__.append(name)\n",
+)
+mut(
+    "c19-kwarg-table-entry-dropped",
+    "C19",
+    "C19.dispatch",
+    GU,
+    '            "pydantic": {"class_name": _name},\n',
+    "",
+)
+mut(
+    "c19-class-name-to-wrong-keyword",
+    "C19",
+    "C19.dispatch",
+    GU,
+    """            "class_": {
+                "class_name": _name,""",
+    """            "class_": {
+                "name": _name,""",
+)
+# ------------------------------------------------------------------------------ C03
+mut(
+    "c03-parser-table-typo",
+    "C03",
+    "C03.dispatch",
+    "cdd/shared/parse/utils/parser_utils.py",
+    '        "sqlalchemy_hybrid": "sqlalchemy",\n',
+    '        "sqlalchemy_hybrid": "sqlalchemy_hybrid_",\n',
+)
+mut(
+    "c03-emitter-module-renamed",
+    "C03",
+    "C03.dispatch",
+    "cdd/shared/emit/utils/emitter_utils.py",
+    '    emit_name: str = {"class": "class_"}.get(emit_name, emit_name)\n',
+    '    emit_name: str = {"class": "class_", "json_schema": "jsonschema"}.get(emit_name, emit_name)\n',
+)
+mut(
+    "c03-ir-extra-key",
+    "C03",
+    "C03.ir",
+    "cdd/function/parse.py",
+    '            "returns": None,\n        },\n    )\n\n    intermediate_repr["params"].update',
+    '            "returns": None,\n            "decorators": None,\n        },\n    )\n\n    intermediate_repr["params"].update',
+)
+mut(
+    "c03-none-sentinel-diverges",
+    "C03",
+    "C03.none",
+    "cdd/shared/defaults_utils.py",
+    'NoneStr = "```(None)```" if PY_GTE_3_9 else "```None```"',
+    'NoneStr = "```None```"',
+)
+
 MUTANTS = M
